@@ -266,6 +266,28 @@ pub fn m3() -> InputFam {
             v.push((format!("levels {:?}", seq.iter().map(|s| lv[*s]).collect::<Vec<_>>()), f.encode()));
         }
     }
+    // tile words against tileset flag words and cel bitmask layouts: marker values, ids at and beyond the tile count
+    for (fi, fmt) in fmts.iter().enumerate() {
+        for tsflags in [2u32, 6, 2 | 8, 0xFFFF_FFFE] {
+            for (li, (mid, mx, my, mr)) in [(0x1fff_ffffu32, 0x8000_0000u32, 0x4000_0000u32, 0x2000_0000u32), (0xffff_ffff, 0, 0, 0), (0x0000_ffff, 0x1_0000, 0x2_0000, 0x4_0000), (0x3, 0x4, 0x8, 0x10)].iter().enumerate() {
+                for word in [0xffff_ffffu32, 0x1fff_ffff, 0xffff, 3, 4, 0x8000_0003, 0xe000_0000, 2, 0x7fff_ffff] {
+                    let mut f = simple(fmt, 0, 1);
+                    let mut ts = tileset(0, 3, 2, 2, tile_pixels(fmt, 3, 2, 2, 1, ir), "ts");
+                    ts.flags = tsflags;
+                    f.frames[0].push(Body::Tileset(ts));
+                    f.frames[0].push(Body::Layer(Layer::tilemap("m", 0)));
+                    let mut c = tm_cel(0, 0, 0, 255, 2, 1, vec![1, word]);
+                    if let Body::Cel(cc) = &mut c {
+                        if let CelBody::Tilemap { mask_id, mask_xflip, mask_yflip, mask_rot, .. } = &mut cc.body {
+                            (*mask_id, *mask_xflip, *mask_yflip, *mask_rot) = (*mid, *mx, *my, *mr);
+                        }
+                    }
+                    f.frames[0].push(c);
+                    v.push((format!("fmt{} tileset.flags={:#x} mask layout {} tile word {:#x} (3 tiles)", fi, tsflags, li, word), f.encode()));
+                }
+            }
+        }
+    }
     for (fi, fmt) in fmts.iter().enumerate() {
         // b. cel layer index out of range
         for nl in [0usize, 1, 3] {
